@@ -493,7 +493,17 @@ func genERC20(r *lib.Rand, tier string) History {
 			g.enable = true
 			continue
 		}
-		switch r.Weighted(2, 9, 8, 6, 1, 1, 2, 1, 5) {
+		switch r.Weighted(2, 9, 8, 6, 1, 1, 2, 1, 5, 1) {
+		case 9: // upgrade of the ERC20 implementation behind the beacon (authority / stranger / bad address)
+			a := accGov
+			if r.Chance(1, 5) {
+				a = r.Intn(g.n)
+			}
+			impl := 1 + r.Intn(3)
+			if r.Chance(1, 10) {
+				impl = -1
+			}
+			h.Steps = append(h.Steps, Op{K: "upgrade", A: a, Nm: impl})
 		case 8: // swap-to-native through the EVM hook
 			var hs []int
 			for _, a := range []int{0, 1, 2, 3, 200, 201} {
@@ -626,7 +636,7 @@ func genERC20(r *lib.Rand, tier string) History {
 		case 4:
 			h.Steps = append(h.Steps, g.setparams())
 		case 5:
-			mode = pick(r, 0, 0, 1, 2, 3, 4, 5, 6, 7)
+			mode = pick(r, 0, 0, 1, 2, 3, 4, 5, 6, 7, 8)
 			h.Steps = append(h.Steps, Op{K: "evmmode", Mode: mode})
 		case 6:
 			if t.mintable {
